@@ -80,7 +80,7 @@ theorem ad_credit_bound (c : ADCfg) : ∀ (ops : List Op) (s : AD),
     | fail t =>
       have ih' := ih (s.step c (.fail t))
       simp only [AD.admitted, AD.run, AD.credit]
-      have e : (s.step c (.fail t)).tok = s.tok := rfl
+      have e : (s.step c (.fail t)).tok ≤ s.tok := Nat.min_le_left _ _
       omega
 
 theorem endTime_ge : ∀ (ops : List Op) (now : Nat), MonoOps now ops → now ≤ endTime now ops
